@@ -201,6 +201,28 @@ func runCoCase(c coCase, st *coStats) *fail {
 			if len(rs) != 1 || rs[0].Name != nm || rs[0].Name2 != tg {
 				return failf("carry-over:backend-strings", "%s: the backend received name %.80q target %.80q, the request carries %.80q and %.80q", what, rs[0].Name, rs[0].Name2, nm, tg)
 			}
+		case "setattr":
+			// a Tsetattr that selects everything and carries values, then one that selects
+			// the mode alone and carries zeros elsewhere: what the backend is handed is
+			// what the second frame carries
+			full := refcodec.New(refcodec.Tsetattr, 0, "fid", 0, "valid", 0x1ff, "mode", 0o640, "uid", 1000+stp.N, "gid", 2000+stp.M, "size", 777+stp.N,
+				"atime_sec", 11111+stp.N, "atime_nsec", 222, "mtime_sec", 33333+stp.M, "mtime_nsec", 444)
+			if f := expect(full, refcodec.New(refcodec.Rsetattr, 0)); f != nil {
+				return f
+			}
+			lean := refcodec.New(refcodec.Tsetattr, 0, "fid", 0, "valid", 1, "mode", 0o600, "uid", 0, "gid", 0, "size", 0,
+				"atime_sec", 0, "atime_nsec", 0, "mtime_sec", 0, "mtime_nsec", 0)
+			if f := expect(lean, refcodec.New(refcodec.Rsetattr, 0)); f != nil {
+				return f
+			}
+			rs := recs("SetAttr")
+			if len(rs) != 2 {
+				return failf("harness-setattr", "HARNESS-ERROR %d SetAttr calls", len(rs))
+			}
+			a := rs[1].SAttr
+			if a.UID != 0 || a.GID != 0 || a.Size != 0 || a.ATimeSeconds != 0 || a.ATimeNanoSeconds != 0 || a.MTimeSeconds != 0 || a.MTimeNanoSeconds != 0 || uint32(a.Permissions) != 0o600 {
+				return failf("carry-over:setattr-fields", "%s: a Tsetattr carrying mode 0600 and zeros was handed to the backend as %+v - fields of an earlier Tsetattr", what, a)
+			}
 		case "renameat":
 			on, nn := coName(stp.N, stp.Salt), coName(stp.M, stp.Salt+1)
 			if f := expect(tRenameat(0, on, 0, nn), refcodec.New(refcodec.Rrenameat, 0)); f != nil {
@@ -693,7 +715,7 @@ func runOverlapCase(c overlapCase) *fail {
 	return nil
 }
 
-var coKinds = []string{"walk", "walkga", "write", "read", "readdir", "symlink", "xattr", "renameat", "attach", "setxattr", "short-after-long"}
+var coKinds = []string{"walk", "walkga", "write", "read", "readdir", "symlink", "xattr", "renameat", "attach", "setxattr", "short-after-long", "setattr"}
 
 func genCoCase(rt *rapid.T) coCase {
 	c := coCase{Conns: rapid.IntRange(1, 3).Draw(rt, "conns")}
